@@ -97,6 +97,9 @@ func (r *Request) ConnectionID() int {
 // Supported options: WithResponseCode, WithDiagnosticMessage, WithMatchedDN
 func (r *Request) NewModifyResponse(opt ...Option) *ModifyResponse {
 	opts := getResponseOpts(opt...)
+	if opts.withResponseCode == nil {
+		opts.withResponseCode = intPtr(ResultUnwillingToPerform)
+	}
 	return &ModifyResponse{
 		GeneralResponse: r.NewResponse(
 			WithApplicationCode(ApplicationModifyResponse),
